@@ -224,10 +224,19 @@ def check_geometry(case, tr):
     """tiling + capacity = free area + aggregation, on the fine grid and on every dumped view"""
     regs = [r for r in case["regions"]]
     g = tr["G"]
+    nofree = not regs and case["tag"] == "HC" and bool(case["rows"])
     if regs:
         area = [min(r[0] for r in regs), max(r[1] for r in regs), min(r[2] for r in regs), max(r[3] for r in regs)]
+    elif nofree:
+        # a circuit without free space (no row segment survives obstructions + side margin): since the repair of finding F28
+        # fromIspdCircuit falls back to Circuit::computePlacementArea() = the bounding box of ALL rows, with capacity 0 everywhere
+        rows = case["rows"]
+        area = [min(r[0] for r in rows), max(r[1] for r in rows), min(r[2] for r in rows), max(r[3] for r in rows)]
     else:
-        area = [0, 0, 0, 0]
+        area = [0, 0, 0, 0]      # DensityGrid(binSize, {}) of an HR case without regions
+    if nofree and g["area"] == [0, 0, 0, 0] and area != [0, 0, 0, 0]:
+        return ("F28: the grid of a circuit without free space is the single empty bin at the origin, not the (empty) grid of the rows' "
+                "bounding box %s: repair of finding F28 missing in this tree" % area)
     if g["area"] != area:
         return "placement area %s is not the bounding box %s of the regions" % (g["area"], area)
     total_free = sum((r[1] - r[0]) * (r[3] - r[2]) for r in regs)
@@ -446,7 +455,7 @@ def first_diff(a, b):
     return k, " ".join(a[max(0, k - 12):k + 6]), " ".join(b[max(0, k - 12):k + 6])
 
 
-def evaluate(lines, impl, model, stats):
+def evaluate(lines, impl, model, stats, ctx=None):
     """-> (violations with input, correspondence differences, nontrivial set)"""
     bad_out, mism, nontriv = [], [], set()
     for l, i, m in zip(lines, impl, model):
@@ -491,7 +500,14 @@ def evaluate(lines, impl, model, stats):
             bad_out.append((l, i[:3000], "unreadable trace from the harness: %s" % e))
             continue
         corr = []
+        if case["tag"] == "HC" and not case["regions"]:
+            stats["circuit_cases_without_free_space"] += 1
         w = oracle(case, tr, side, qside, stats, corr)
+        if w and w.startswith("F28:") and ctx is not None and ctx.known_finding("F28"):
+            # finding F28 on a tree without the repair (listed as `known` for this property): matched only for a circuit without free
+            # space whose C++ grid is the origin bin; the model follows the repaired code, so its tie is not evaluated on this case
+            stats["circuit_cases_without_free_space_matched_F28"] += 1
+            continue
         if w:
             bad_out.append((l, i[:3000], w))
         a, b = trace.split(), mtrace.split()
@@ -569,7 +585,7 @@ def run(ctx):
     stats = Stats()
     stats["spread_max_err_in_tol"] = 0.0
     impl, model = run_variant("plain", lines, driver, stats)
-    bad_out, mism, nontriv = evaluate(lines, impl, model, stats)
+    bad_out, mism, nontriv = evaluate(lines, impl, model, stats, ctx)
     # the NDEBUG build (what the pinned build ships): the code's own check() compiled out.  Same cases (a prefix in the
     # quick tier) plus every case on which the assert-enabled build died, so that the report says what the state looks like
     h2 = common.build_harness("density", "ndebug")
@@ -588,7 +604,7 @@ def run(ctx):
         ml, _, _ = common.run_both([driver], None, compose(sl, il), timeout=1200, chunk=200)
         st2 = Stats()
         st2["spread_max_err_in_tol"] = 0.0
-        b2, m2, _ = evaluate(sl, il, ml, st2)
+        b2, m2, _ = evaluate(sl, il, ml, st2, ctx)
         for (l, i, w) in b2:
             nd_verdict[l] = w
         for (l, a, b, w) in m2:
@@ -669,7 +685,7 @@ def replay(ctx, path):
         stats = Stats()
         stats["spread_max_err_in_tol"] = 0.0
         impl, model = run_variant(variant, [case], driver, stats)
-        bad_out, mism, _ = evaluate([case], impl, model, stats)
+        bad_out, mism, _ = evaluate([case], impl, model, stats, ctx)
         print("variant:", variant)
         print("case :", case[:2000])
         print("impl :", impl[0][:2000])
